@@ -671,6 +671,35 @@ static void record_table08(Trace& T, Rng& g, int N, int steps)
 		for(int k = 0; k < N; k++)
 			if(t.x[k] >= x1 && t.x[k] <= x2)
 				pts.push_back(t.x[k]);
+		// outside the table the continued edge cubic may turn around: its stationary points (located through the sign of the first
+		// derivative, 64 samples + bisection) are candidates for the extrema as well
+		auto add_stationary = [&](double lo, double hi) {
+			if(!(lo < hi) || global)
+				return;
+			double px = lo, pd = U.Derivative(lo, 1);
+			for(int k = 1; k <= 64; k++)
+			{
+				double x = lo + (hi - lo) * k / 64.0, d = U.Derivative(x, 1);
+				if((pd < 0 && d > 0) || (pd > 0 && d < 0))
+				{
+					double a = px, b = x;
+					bool na = pd < 0;
+					for(int it = 0; it < 80; it++)
+					{
+						double m = 0.5 * (a + b);
+						if((U.Derivative(m, 1) < 0) == na)
+							a = m;
+						else
+							b = m;
+					}
+					pts.push_back(0.5 * (a + b));
+				}
+				px = x;
+				pd = d;
+			}
+		};
+		add_stationary(x1, std::min(x2, t.x[0]));
+		add_stationary(std::max(x1, t.x[N - 1]), x2);
 		size_t exact_pts = pts.size();
 		for(int k = 0; k < 40; k++)
 			pts.push_back(x1 + (x2 - x1) * g.u01());
@@ -689,7 +718,7 @@ static void record_table08(Trace& T, Rng& g, int N, int steps)
 				smax = std::max(smax, v);
 			}
 		}
-		// the reported extrema are attained (at an end point or a tabulated point)
+		// the reported extrema are attained (at an end point, a tabulated point or a stationary point of the continued edge cubic)
 		long attq = std::max(quant(smin - mn, slack), quant(smax - mx, slack));
 		// scaling with the prefactor: min/max exchange when it is negative
 		int sg, ex, sg2, ex2;
